@@ -21,4 +21,4 @@ Deliverables, written to {wt}-out/ :
 2. demo.py — a small standalone program that exits 0 and prints PASS on the unmodified library and exits non-zero / prints FAIL with your change applied (it will be run as `cd <tree> && PYTHONPATH=/tmp/nompi_stub:<tree> /venv/bin/python /path/to/demo.py`). It must show the property itself violated.
 3. notes.md — what the change is, what exactly is needed for it to manifest, and which existing tests you ran.
 
-Checks you must do yourself: (a) demo passes on the unmodified worktree (`git stash`) and fails with the change; (b) the relevant existing tests still pass with the change: run at least `cd {wt} && PYTHONPATH=/tmp/nompi_stub:{wt} /venv/bin/python -m pytest -q -p no:cacheprovider -n 4 {tests}` before and after; the set of passing tests must not shrink. Keep CPU use moderate (at most `-n 4`). Leave the worktree with your change applied when done. Report briefly (under 150 words) what you did.""")
+Checks you must do yourself: (a) demo passes on the unmodified worktree and fails with the change (to test the unmodified tree do NOT use `git stash` -- the stash is shared between parallel worktrees; use `git diff > /tmp/<your>.diff; git apply -R /tmp/<your>.diff; ...; git apply /tmp/<your>.diff`); (b) the relevant existing tests still pass with the change: run at least `cd {wt} && PYTHONPATH=/tmp/nompi_stub:{wt} /venv/bin/python -m pytest -q -p no:cacheprovider -n 4 {tests}` before and after; the set of passing tests must not shrink. Keep CPU use moderate (at most `-n 4`). Leave the worktree with your change applied when done. Report briefly (under 150 words) what you did.""")
